@@ -120,6 +120,37 @@ class _Bound:
         return getattr(self.target, k)
 
 
+class _BoundMethod:
+    """obj.method taken as a value (passed as a callback, stored in a local)"""
+
+    def __init__(self, obj, name):
+        self.obj, self.name = obj, name
+        self.__name__ = name
+
+    def __call__(self, *a, **kw):
+        return self.obj.call(self.name, *a, **kw)
+
+
+def _format_value(v, conv, spec):
+    if conv == ord('r'):
+        v = repr(v)
+    elif conv in (ord('s'), ord('a')):
+        v = _to_str(v)
+    if spec:
+        return format(v, spec)
+    return _to_str(v)
+
+
+def _to_str(v):
+    if isinstance(v, Obj):
+        if '__str__' in v.methods:
+            return v.call('__str__')
+        return '<%s>' % (v.clsname or 'object')
+    if isinstance(v, PyStub):
+        return '<%s>' % type(v).__name__
+    return str(v)
+
+
 _DUNDER = {ast.Lt: '__lt__', ast.LtE: '__le__', ast.Gt: '__gt__', ast.GtE: '__ge__',
            ast.Eq: '__eq__', ast.NotEq: '__ne__'}
 
@@ -167,6 +198,13 @@ def ev(n, env, funcs=None):
             an = _mangled(n.attr, env)
             if an in v.fields:
                 return v.fields[an]
+            cc = getattr(v, 'consts', None) or {}
+            if an in cc:
+                return cc[an]
+            if n.attr in cc:
+                return cc[n.attr]
+            if n.attr in v.methods:
+                return _BoundMethod(v, n.attr)
             raise Unsupported('record has no field %s' % an)
         if isinstance(v, PyStub):
             if hasattr(v, n.attr):
@@ -224,6 +262,9 @@ def ev(n, env, funcs=None):
                     raise Unsupported('abstract object has no method %s' % fname)
                 kw = {k.arg: ev(k.value, env, funcs) for k in n.keywords if k.arg}
                 return getattr(rv, fname)(*[ev(a, env, funcs) for a in n.args], **kw)
+            if isinstance(rv, Obj) and fname not in rv.methods and callable(rv.fields.get(_mangled(fname, env))):
+                # a callable stored in a field (a model function handed to the object)
+                return rv.fields[_mangled(fname, env)](*[ev(a, env, funcs) for a in n.args], **{k.arg: ev(k.value, env, funcs) for k in n.keywords if k.arg})
             if isinstance(rv, Obj) and fname in rv.methods:
                 rv.depth += 1
                 try:
@@ -445,7 +486,11 @@ def ev(n, env, funcs=None):
                 return
             g = n.generators[k]
             it = ev(g.iter, e_, funcs)
-            if not isinstance(it, (list, tuple, range)):
+            if isinstance(it, dict) or type(it).__name__ in ('dict_keys', 'dict_values', 'dict_items'):
+                it = list(it)
+            if isinstance(it, PyStub) and hasattr(it, '__iter__'):
+                it = list(it)
+            if not isinstance(it, (list, tuple, range, set, str)):
                 raise Unsupported('comprehension over %s' % ast.unparse(g.iter))
             for item in it:
                 e2 = dict(e_)
@@ -454,6 +499,56 @@ def ev(n, env, funcs=None):
                     gen(k + 1, e2)
         gen(0, env)
         return out
+    if isinstance(n, ast.JoinedStr):
+        out_ = []
+        for part in n.values:
+            if isinstance(part, ast.Constant):
+                out_.append(str(part.value))
+            else:
+                spec = ev(part.format_spec, env, funcs) if part.format_spec is not None else ''
+                out_.append(_format_value(ev(part.value, env, funcs), part.conversion, spec))
+        return ''.join(out_)
+    if isinstance(n, ast.Lambda):
+        params = [a.arg for a in n.args.args]
+        defaults = [ev(d, env, funcs) for d in n.args.defaults]
+        captured = env
+
+        def lam(*args, **kwargs):
+            e2 = dict(captured)
+            for i_, d_ in enumerate(defaults):
+                e2[params[len(params) - len(defaults) + i_]] = d_
+            for p_, a_ in zip(params, args):
+                e2[p_] = a_
+            e2.update(kwargs)
+            return ev(n.body, e2, funcs)
+        return lam
+    if isinstance(n, (ast.DictComp, ast.SetComp)):
+        res = {} if isinstance(n, ast.DictComp) else set()
+
+        def gen2(k, e_):
+            if k == len(n.generators):
+                if isinstance(n, ast.DictComp):
+                    res[ev(n.key, e_, funcs)] = ev(n.value, e_, funcs)
+                else:
+                    res.add(ev(n.elt, e_, funcs))
+                return
+            g = n.generators[k]
+            it = ev(g.iter, e_, funcs)
+            if isinstance(it, dict) or type(it).__name__ in ('dict_keys', 'dict_values', 'dict_items'):
+                it = list(it)
+            if not isinstance(it, (list, tuple, range, set, str)):
+                raise Unsupported('comprehension over %s' % ast.unparse(g.iter))
+            for item in it:
+                e2 = dict(e_)
+                _bind(g.target, item, e2)
+                if all(ev(c_, e2, funcs) for c_ in g.ifs):
+                    gen2(k + 1, e2)
+        gen2(0, env)
+        return res
+    if isinstance(n, ast.NamedExpr) and isinstance(n.target, ast.Name):
+        v_ = ev(n.value, env, funcs)
+        env[n.target.id] = v_
+        return v_
     if isinstance(n, ast.Slice):
         return slice(ev(n.lower, env, funcs) if n.lower is not None else None, ev(n.upper, env, funcs) if n.upper is not None else None,
                      ev(n.step, env, funcs) if n.step is not None else None)
@@ -503,16 +598,19 @@ def run_block(stmts, env, funcs=None, limit=10000):
             cur = ev(s.target, env, funcs)
             v = ev(s.value, env, funcs)
             t = type(s.op)
-            if t not in (ast.Add, ast.Sub, ast.Mult, ast.Div):
+            if t not in _AUG:
                 raise Unsupported('augmented assignment %s' % ast.unparse(s))
-            _bind(s.target, cur + v if t is ast.Add else cur - v if t is ast.Sub else cur * v if t is ast.Mult else cur / v, env, funcs)
+            _bind(s.target, _AUG[t](cur, v), env, funcs)
         elif isinstance(s, ast.AugAssign) and isinstance(s.target, ast.Name):
             cur = env[s.target.id]
             v = ev(s.value, env, funcs)
             t = type(s.op)
-            if t not in (ast.Add, ast.Sub, ast.Mult, ast.Div, ast.Pow):
+            if t not in _AUG:
                 raise Unsupported('augmented assignment %s' % ast.unparse(s))
-            env[s.target.id] = cur + v if t is ast.Add else cur - v if t is ast.Sub else cur * v if t is ast.Mult else cur / v if t is ast.Div else cur ** v
+            if isinstance(cur, list) and t is ast.Add and isinstance(v, (list, tuple)):
+                cur.extend(v)           # in place, as Python does
+            else:
+                env[s.target.id] = _AUG[t](cur, v)
         elif isinstance(s, ast.If):
             if ev(s.test, env, funcs):
                 r = run_block(s.body, env, funcs)
@@ -606,9 +704,47 @@ def run_block(stmts, env, funcs=None, limit=10000):
             return ('break', None)
         elif isinstance(s, ast.Continue):
             return ('continue', None)
+        elif isinstance(s, ast.Assert):
+            if not ev(s.test, env, funcs):
+                raise Raised('AssertionError', ast.unparse(s.test)[:200])
+        elif isinstance(s, ast.FunctionDef):
+            env[s.name] = _closure(s, env, funcs)
+        elif isinstance(s, ast.With) and all(isinstance(it.context_expr, ast.Call) and
+                                             ast.unparse(it.context_expr.func).split('.')[-1] in ('catch_warnings', 'suppress', 'nullcontext', 'errstate')
+                                             for it in s.items):
+            r = run_block(s.body, env, funcs, limit)
+            if r[0] != 'fall':
+                return r
+        elif isinstance(s, (ast.Import, ast.ImportFrom)):
+            pass
+        elif isinstance(s, ast.AnnAssign) and s.value is not None:
+            _bind(s.target, ev(s.value, env, funcs), env, funcs)
         else:
             raise Unsupported('statement %s' % type(s).__name__)
     return ('fall', None)
+
+
+def _closure(fdef, env, funcs):
+    """a nested function definition: interpreted in a copy of the enclosing environment taken at call time"""
+    params = [a.arg for a in fdef.args.args]
+    defaults = [ev(d, env, funcs) for d in fdef.args.defaults]
+
+    def call(*args, **kwargs):
+        e2 = dict(env)
+        for i_, d_ in enumerate(defaults):
+            e2[params[len(params) - len(defaults) + i_]] = d_
+        for p_, a_ in zip(params, args):
+            e2[p_] = a_
+        e2.update(kwargs)
+        body = fdef.body
+        kind, val = run_block(body, e2, funcs)
+        return val if kind == 'return' else None
+    call.__name__ = fdef.name
+    return call
+
+
+_AUG = {ast.Add: lambda a, b: a + b, ast.Sub: lambda a, b: a - b, ast.Mult: lambda a, b: a * b, ast.Div: lambda a, b: a / b,
+        ast.Pow: lambda a, b: a ** b, ast.FloorDiv: lambda a, b: a // b, ast.Mod: lambda a, b: a % b}
 
 
 def _bind(t, v, env, funcs=None):
